@@ -5,7 +5,8 @@ from . import build
 
 QUICK = [('simd', 'rel'), ('simd', 'chk'), ('serial64', 'rel'), ('serial64', 'chk'), ('serial32', 'rel'),
          ('serial32', 'chk'), ('fiat64', 'rel'), ('fiat32', 'rel'), ('simd-notables', 'rel'), ('simd-legacy', 'rel'),
-         ('avx512', 'rel'), ('avx512', 'chk'), ('fiat64', 'chk'), ('fiat32', 'chk'), ('simd', 'bnd'), ('avx512', 'bnd'), ('simd', 'cg1'), ('simd-legacy', 'chk')]
+         ('avx512', 'rel'), ('avx512', 'chk'), ('fiat64', 'chk'), ('fiat32', 'chk'), ('simd', 'bnd'), ('avx512', 'bnd'), ('simd', 'cg1'), ('simd-legacy', 'chk'), ('simd-notables', 'chk'),
+         ('serial64-notables', 'rel'), ('serial64-notables', 'chk')]
 
 
 def main():
